@@ -539,16 +539,31 @@ pub fn check_sink_case(case: &SinkCase, mon: &mut Mon) {
             let run = run_single(entry, &value, popts, &case.plan, t.len());
             mon.event(|| format!("sink {} -> ok={} delivered={:?} fired={:?}", ctx, run.result_ok, text::show(&run.delivered), run.fired));
             judge_single(case, &t, &run, mon, &ctx);
-            // O7.2: default printer == customised printer with default options, same plan
+            // O7.2: the default printer and the customised printer with default options
+            // produce the same text, and each delivers it (or a prefix of it, failing)
+            // under this plan. What the two deliver *after a sink fault* need not be the
+            // same bytes - how far each got depends on how it batches its writes - so
+            // under a fired fault each is judged against the text on its own.
             if entry.default_formatter() && run.abnormal.is_none() {
                 let twin = match entry {
                     Entry::ToWriter => Entry::ToWriterCustom,
                     _ => Entry::PrinterWithOptions,
                 };
+                let t2 = reference(&value, false, PrintOptions::default());
+                mon.count("c07.twin_runs");
+                if t2 != t {
+                    mon.violate(
+                        "C07",
+                        "O7.2",
+                        "default printer and customised printer with default options differ".into(),
+                        format!("{}: default text {:?}, customised text {:?}", ctx, text::show(&t), text::show(&t2)),
+                    );
+                }
                 let run2 = run_single(&twin, &value, PrintOptions::default(), &case.plan, t.len());
                 mon.evaluations += 1;
-                mon.count("c07.twin_runs");
-                if run2.delivered != run.delivered || run2.result_ok != run.result_ok {
+                let twin_case = SinkCase { entry: twin, popts: opts::PRINT_DEFAULT, ..case.clone() };
+                judge_single(&twin_case, &t2, &run2, mon, &ctx);
+                if run.fired.is_empty() && run2.fired.is_empty() && run.interrupts_fired == 0 && run2.interrupts_fired == 0 && (run2.delivered != run.delivered || run2.result_ok != run.result_ok) {
                     mon.violate(
                         "C07",
                         "O7.2",
